@@ -64,9 +64,9 @@ HASH_SEEDS = (0, 1, 987654321)
 
 def plan(tier: str) -> dict:
     if tier == "thorough":
-        return {"shards": 16, "examples": 320, "seed_cases": 10 ** 9,
+        return {"shards": 16, "examples": 1500, "seed_cases": 10 ** 9,
                 "hash_seeds": HASH_SEEDS}
-    return {"shards": 16, "examples": 60, "seed_cases": 12,
+    return {"shards": 16, "examples": 150, "seed_cases": 16,
             "hash_seeds": HASH_SEEDS[:2]}
 
 
